@@ -60,7 +60,24 @@ FUNCS3 = [
     ("src/ser.rs", "Encoder", None, "encode_object", "Encoder.encode_object", "encoder"),
     ("src/ser.rs", "Encoder", None, "encode_scalar", "Encoder.encode_scalar", None),
     ("src/ser.rs", "Encoder", None, "encode", "Encoder.encode", None),
+    ("src/ser.rs", "Encoder", None, "new", "Encoder.new", None),
+    ("src/value.rs", "Value", None, "write_to_vec", "Value.write_to_vec", None),
+    ("src/value.rs", "Value", None, "to_vec", "Value.to_vec", None),
 ]
+
+# translated and elaborated on request only (RS2LEAN3_EXTRA=compare): the group translates, its agreement
+# with Functions/Order.lean (`Fn.cmpScalar` & co.) is not proved yet, so it is not part of the default output
+EXTRA3 = {
+    "compare": [
+        ("src/functions.rs", None, None, "compare_scalar", "compare_scalar", "compare"),
+        ("src/functions.rs", None, None, "compare_container", "compare_container", "compare"),
+        ("src/functions.rs", None, None, "compare_array", "compare_array", "compare"),
+        ("src/functions.rs", None, None, "compare_object", "compare_object", "compare"),
+    ],
+}
+for _x in os.environ.get("RS2LEAN3_EXTRA", "").split(","):
+    if _x in EXTRA3:
+        FUNCS3 = FUNCS3 + EXTRA3[_x]
 
 # `from_slice`: `match decoder.decode() { Ok(v) => Ok(v), Err(_) => <text fallback> }`; the fallback
 # calls the JSON text parser and is kept as a parameter `text__` holding its result
@@ -706,6 +723,14 @@ class FnTr3(FnTr2):
             if ty[0] != "res":
                 raise Unsupported("`.map_err()` on %s" % tystr3(ty))
             return ls, "(Rs.mapErr %s %s)" % (self.atom(t), self.error_name(c.body)), ty
+        if name == "cmp" and len(args) == 1:
+            rty = self.peek_type(recv)
+            if rty == STR or (rty is not None and is_bytes(rty)):
+                ls, t, _ = self.ex(recv)
+                l1, t1, ty1 = self.ex(args[0])
+                if not (ty1 == STR or is_bytes(ty1)) or (ty1 == STR) != (rty == STR):
+                    raise Unsupported("`.cmp()` of %s and %s" % (tystr3(rty), tystr3(ty1)))
+                return ls + l1, "(Rs.cmpBytes %s %s)" % (self.atom(t), self.atom(t1)), ("ordering",)
         rty = None
         if name in ("as_str", "as_bytes", "to_vec", "as_slice", "as_ref", "to_owned", "to_string", "len", "is_empty", "iter"):
             rty = self.peek_type(recv)
@@ -732,8 +757,51 @@ class FnTr3(FnTr2):
             return l1 + l2 + self.place_store(pl, "(Rs.btreeInsert %s %s %s)" % (cur, self.atom(t1), self.atom(t2)))
         return FnTr2.tr_mutcall(self, e)
 
+    # -- a struct that holds the `&mut` borrow of a parameter (`let mut e = Encoder::new(buf);`): while the
+    # struct lives the parameter cannot be named (borrow checker); at every exit its final value is the
+    # struct's field
+    def holder_of(self, init):
+        """(param, field) when `init` is a call `T::new(p)` of a translated constructor whose body stores
+        its `&mut` parameter in the only (`&mut`) field of `T`, and `p` is a `&mut` parameter here"""
+        if init is None or init.kind != "call" or len(init.args) != 1:
+            return None
+        sig = self.callee_sig(init)
+        if sig is None or not sig.get("holder"):
+            return None
+        a = strip(init.args[0])
+        if not (a.kind == "path" and len(a.segs) == 1 and a.segs[0] in self.mutparams and a.segs[0] != "self"):
+            return None
+        return a.segs[0], sig["holder"]
+
+    def ret_pack(self, term):
+        parts = []
+        if self.ret_value_type() != ("unit",):
+            parts.append(term)
+        for m in self.mutparams:
+            h = getattr(self, "holders", {}).get(m)
+            if h is not None and self.lookup(h[0]) is not None:
+                parts.append("%s.%s" % (lname(h[0]), lname(h[1])))
+            else:
+                parts.append(lname(m))
+        if not parts:
+            return "()"
+        if len(parts) == 1:
+            return parts[0]
+        return "(" + ", ".join(parts) + ")"
+
     # -- statements
     def tr_stmt(self, s):
+        if s.kind == "let" and s.pat.kind == "p_path" and len(s.pat.path) == 1 and self.holder_of(s.init):
+            if len(self.scopes) != 2 or self.loop_stack:
+                raise Unsupported("a struct holding a `&mut` parameter must be created in the outermost block")
+            p, f = self.holder_of(s.init)
+            if not hasattr(self, "holders"):
+                self.holders = {}
+            if p in self.holders:
+                raise Unsupported("`%s` is already held by `%s`" % (p, self.holders[p][0]))
+            r = FnTr2.tr_stmt(self, s)
+            self.holders[p] = (s.pat.path[0], f)
+            return r
         if s.kind == "expr" and s.semi and s.e.kind in ("match", "if", "iflet"):
             # `match .. { .. };`: the values of the arms are dropped
             s = N("expr", e=self.drop_values(s.e), semi=True)
@@ -777,6 +845,53 @@ class FnTr3(FnTr2):
         if e.kind == "if":
             return N("if", cond=e.cond, then=unitise(e.then), els=unitise(e.els))
         return N("iflet", pat=e.pat, scrut=e.scrut, then=unitise(e.then), els=unitise(e.els))
+
+    # -- `match (a, b) { (CONST, CONST | CONST) => .., (_, _) => .. }` on a tuple of integers
+    def ctl_match(self, e, mode, want, M):
+        scrut = e.scrut
+        while scrut.kind == "paren":
+            scrut = scrut.e
+        if scrut.kind == "tuple" and len(scrut.items) >= 2:
+            tys = [self.peek_type(it) for it in scrut.items]
+            tys = [self.default_flex(t) if (t is not None and t[0] == "flex") else t for t in tys]
+            if all(t is not None and (is_int(t) or t == ("bool",)) for t in tys):
+                sl, names = [], []
+                for it, t in zip(scrut.items, tys):
+                    l1, t1, _ = self.ex(it, t)
+                    sl += l1
+                    if not re.fullmatch(r"[A-Za-z_][A-Za-z0-9_]*", t1):
+                        v = self.fresh()
+                        sl.append("let %s := %s" % (v, t1))
+                        t1 = v
+                    names.append(t1)
+                branches, catch_all = [], False
+                for a in e.arms:
+                    if catch_all:
+                        raise Unsupported("match arm after a catch-all arm")
+                    if a.guard is not None:
+                        raise Unsupported("guard on a tuple match arm")
+                    if a.pat.kind == "p_wild":
+                        conds = []
+                    elif a.pat.kind == "p_tuple" and len(a.pat.items) == len(names):
+                        conds = []
+                        for q, nm, t in zip(a.pat.items, names, tys):
+                            c, b = self.const_pattern(q, nm, t)
+                            if b:
+                                raise Unsupported("binding inside a tuple pattern of integers")
+                            if c is not None:
+                                conds.append(c)
+                    else:
+                        raise Unsupported("pattern not in the subset for a match on a tuple of integers")
+                    cond = None if not conds else conds[0] if len(conds) == 1 else "(" + " && ".join(conds) + ")"
+                    if cond is None:
+                        catch_all = True
+                    branches.append(dict(cl=[], cond=cond, body=a.body, binds=[], pre=[]))
+                if not catch_all:
+                    raise Unsupported("match on a tuple of integers without a catch-all arm")
+                if len(branches) == 1:
+                    return self.finish_ctl(("block",), sl, [dict(kind="only", body=branches[0]["body"], binds=[], pre=[])], mode, want, M)
+                return self.finish_ctl(("chain",), sl, branches, mode, want, M)
+        return FnTr2.ctl_match(self, e, mode, want, M)
 
     # -- loops: a body that calls a member of the group takes the callee as a parameter
     def tr_loop(self, e):
@@ -950,6 +1065,54 @@ def phase2_world(repo):
     return world
 
 
+def mut_ref_fields(world, sname):
+    """names of the fields of struct `sname` whose declared type is `&['a] mut T`"""
+    out = []
+    for file in list(world.items):
+        for it in world.items[file]:
+            if it["kind"] == "struct" and it["name"] == sname:
+                p = Parser3(list(it["toks"]))
+                try:
+                    if p.isp("<"):
+                        p.skip_generics()
+                    p.expectp("{")
+                    while not p.isp("}"):
+                        p.skip_attrs()
+                        if p.eatid("pub") and p.isp("("):
+                            p.skip_balanced()
+                        fname = p.ident()
+                        p.expectp(":")
+                        if p.isp("&") and (p.isid("mut", 1) or (p.peek(1).k == "life" and p.isid("mut", 2))):
+                            out.append(fname)
+                        p.parse_type()
+                        if not p.eatp(","):
+                            break
+                except Unsupported:
+                    return []
+    return out
+
+
+def holder_field(world, tr, it):
+    """the field in which a constructor `fn new(p: &mut T) -> S { S { f: p } }` stores its only parameter
+    (None for every other function)"""
+    if tr.impl is None or len(tr.params) != 1 or tr.mutparams != [tr.params[0][0]] or tr.ret != ("named", tr.impl):
+        return None
+    fields = world.structs.get(tr.impl)
+    if not fields or len(fields) != 1 or fields[0][1] != tr.params[0][1] or mut_ref_fields(world, tr.impl) != [fields[0][0]]:
+        return None
+    try:
+        body = Parser3(tr.body_parser.t, tr.body_parser.i).parse_block()
+    except Unsupported:
+        return None
+    e = body.tail
+    if body.stmts or e is None or e.kind != "struct" or e.path not in (["Self"], [tr.impl]) or len(e.fields) != 1:
+        return None
+    fname, fval = e.fields[0]
+    if fname != fields[0][0] or fval.kind != "path" or fval.segs != [tr.params[0][0]]:
+        return None
+    return fname
+
+
 def translate_fn3(world, file, impl, trait, name, lean, it, group):
     """enumerate the integer types of unannotated literal `let`s (as rs2lean2.translate_fn);
     -> (aux lines, def lines, uses_fuel)"""
@@ -1054,6 +1217,7 @@ def generate(repo, prev_text):
                 lean_fn=" → ".join(ptys + ["Res %s" % tr.lean_ret()]))
             if impl is None:
                 world.sigs_names.add(name)
+            world.sigs[(file, impl, name)]["holder"] = holder_field(world, tr, hits[0])
             return hits[0]
         it = guarded(key, sig_of)
         if it is not None:
